@@ -205,7 +205,25 @@ func TestC06(t *testing.T) {
 		})
 		r.note("n=8,c=4: first %d schedules in DFS order (sampled, not exhaustive)", cnt)
 	}
-	g := batchGen{MinN: 0, MaxN: 64, MaxC: 16, Modes: []int{0, 1, 1, 2}, MaxBudget: 2, PFail: 250, PResErr: 80, PPreErr: 80, Fb: true, Gated: 1, PPrepErr: 20, PPostErr: 30, MaxSched: 80}
+	// batches beyond 64 items (word-size boundaries), stop mode with a late failure
+	for i, n := range []int{63, 64, 65, 70, 129} {
+		if !r.mine(i) {
+			continue
+		}
+		for _, c := range []int{0, 1, 3} {
+			b := c06Base(n, c, PFResults)
+			b.Mode = 2
+			for j := range b.Items {
+				b.Items[j].Exec[0].Err = 0
+			}
+			b.Items[n-2].Exec[0].Err = 3
+			b.Sched = []int{2, 0, 1}
+			evalCase(r, "large-batches", b, checkC06)
+			b.Mode = 1
+			evalCase(r, "large-batches", b, checkC06)
+		}
+	}
+	g := batchGen{MinN: 0, MaxN: 96, MaxC: 16, Modes: []int{0, 1, 1, 2}, MaxBudget: 2, PFail: 250, PResErr: 80, PPreErr: 80, Fb: true, Gated: 1, PPrepErr: 20, PPostErr: 30, MaxSched: 80}
 	rapidPart(r, "rand-gated", r.pick(2500, 40000), g.gen, checkC06)
 	g2 := g
 	g2.Gated = 0
